@@ -65,6 +65,13 @@ class Anon:
     members: tuple  # tuple of (member, expr)
 
 
+@dataclass(frozen=True)
+class Orphan:
+    """a signal of width w that the module does not own: kind 0 = owned by no module, 1 = owned by another"""
+    kind: int
+    w: int
+
+
 class _Open:
     """marker for 'no connection made' (compare with is_open(): copies of the DSL copy the marker)"""
 
@@ -218,6 +225,8 @@ class Ref:
             assert kind == "sig"
             assert inst.kind == "inst", "scalar port reference to array/pair not modelled"
             return [(path + (e.inst,), e.port, i) for i in range(w)]
+        if isinstance(e, Orphan):
+            raise AssertionError("orphan signal")
         if isinstance(e, BRef):
             bdef = {n: b for n, b, _ in mod.buns}[e.name]
             w = bdef.leaf_width(e.path)
@@ -228,6 +237,12 @@ class Ref:
     def members(self, mod, path, e, bdef: BundleDef):
         """{leafpath: bits} for a bundle-valued expression against bundle definition `bdef`"""
         out = {}
+        if isinstance(e, (Bun, BRef)):
+            # the connected bundle must have the members (paths and widths) the port's bundle has
+            decl = {n: b for n, b, _ in mod.buns}[e.name]
+            if isinstance(e, BRef):
+                decl = decl.sub(e.path)
+            assert decl is not None and dict(decl.leaves()) == dict(bdef.leaves()), "bundle members differ"
         if isinstance(e, Bun):
             for lp, w in bdef.leaves():
                 out[lp] = [(path, ("bun", e.name) + lp, i) for i in range(w)]
@@ -314,3 +329,129 @@ def describe_diff(want, got, limit=4):
     for g in sorted(map(sorted, got - want), key=str)[:limit]:
         out.append("got-only " + str(g))
     return "; ".join(out)
+
+
+# ---------------- well-formedness (C02): a direct transcription of the property's list --------------
+def _slices_ok(r: "Ref", mod, path, e):
+    """(d): every index inside [-w, w), every slice non-empty with explicit bounds inside [-w, w]"""
+    if isinstance(e, Idx):
+        n = len(r.bits(mod, path, e.e))
+        return _slices_ok(r, mod, path, e.e) and -n <= e.i < n
+    if isinstance(e, Slc):
+        n = len(r.bits(mod, path, e.e))
+        if not _slices_ok(r, mod, path, e.e):
+            return False
+        if any(v is not None and not (-n <= v <= n) for v in (e.a, e.b)):
+            return False
+        return len(list(range(n))[slice(e.a, e.b, e.c)]) > 0
+    if isinstance(e, Cat):
+        return all(_slices_ok(r, mod, path, p) for p in e.parts)
+    if isinstance(e, Anon):
+        return all(_slices_ok(r, mod, path, v) for _, v in e.members)
+    return True
+
+
+def ref_valid(top: Mod):
+    """True iff the design is well formed by C02's list (a)-(h)."""
+    # (g) instantiation cycle, (h) unnamed / name-clashing modules
+    seen, names, stack = {}, {}, set()
+
+    def dfs(m):
+        if id(m) in stack:
+            return False
+        if id(m) in seen:
+            return True
+        if not m.name:
+            return False
+        if m.name in names and names[m.name] is not m:
+            return False
+        names[m.name] = m
+        stack.add(id(m))
+        for i in m.insts:
+            if isinstance(i.of, Mod) and not dfs(i.of):
+                return False
+        stack.discard(id(m))
+        seen[id(m)] = True
+        return True
+
+    if not dfs(top):
+        return False
+    mods = []
+
+    def collect(m):
+        if m not in mods:
+            mods.append(m)
+            for i in m.insts:
+                if isinstance(i.of, Mod):
+                    collect(i.of)
+
+    collect(top)
+    for m in mods:
+        inames = [i.name for i in m.insts]
+        refd, nc_uses = set(), {}
+        for i in m.insts:
+            pt = port_table(i.of)
+            for p, e in i.conns.items():
+                if p not in pt and not is_open(e):
+                    return False  # (b) connection names a port that does not exist
+                for sub in _walk_expr(e):
+                    if isinstance(sub, PRef):
+                        tgt = [x for x in m.insts if x.name == sub.inst]
+                        if not tgt or sub.port not in port_table(tgt[0].of):
+                            return False  # (c) reference to a missing port
+                        refd.add((sub.inst, sub.port))
+                    if isinstance(sub, NC):
+                        nc_uses.setdefault(sub.key, []).append((i.name, p))
+                    if isinstance(sub, Orphan):
+                        return False  # (e)
+        for i in m.insts:
+            for p in port_table(i.of):
+                e = i.conns.get(p, Open)
+                if is_open(e) and (i.name, p) not in refd:
+                    return False  # (b) port neither connected nor referenced
+                if isinstance(e, NC) and (i.name, p) in refd:
+                    return False  # (f)
+        # (one no-connect object on several ports is well formed: C01 lists *shared* no-connects among the
+        #  valid designs; each such port ends on its own private net)
+    # (a) widths, (c) missing bundle members, (d) indices: evaluate the reference semantics
+    try:
+        r = Ref(top)
+    except (AssertionError, KeyError, IndexError, TypeError):
+        return False
+    for path, m in _paths(top):
+        for i in m.insts:
+            for p, e in i.conns.items():
+                try:
+                    if not is_open(e) and not _slices_ok(r, m, path, e):
+                        return False
+                except (AssertionError, KeyError, IndexError, TypeError):
+                    return False
+    return True
+
+
+def _walk_expr(e):
+    yield e
+    if isinstance(e, (Idx, Slc)):
+        yield from _walk_expr(e.e)
+    elif isinstance(e, Cat):
+        for p in e.parts:
+            yield from _walk_expr(p)
+    elif isinstance(e, Anon):
+        for _, v in e.members:
+            yield from _walk_expr(v)
+
+
+def _paths(top):
+    out, seen = [], set()
+
+    def rec(m, path):
+        if id(m) in seen:
+            return
+        seen.add(id(m))
+        out.append((path, m))
+        for i in m.insts:
+            if isinstance(i.of, Mod):
+                rec(i.of, path + (i.name,))
+
+    rec(top, ())
+    return out
